@@ -1,0 +1,28 @@
+//go:build verif
+// +build verif
+
+package executor
+
+import (
+	"math/big"
+	"strconv"
+
+	"com.tuntun.rangers/node/src/common"
+	"com.tuntun.rangers/node/src/middleware/log"
+)
+
+// Verification hook (property C18): the contract executor's decoding of a transaction's data field
+// (gas limit, transfer value, call data), so that a harness can follow the value of a wrapped Ethereum
+// transaction from eth_tx.ConvertTx to the amount the EVM is called with. Read-only; msg is the
+// executor's error text ("" on success).
+func VerifDecodeContractData(txData string) (gasLimit uint64, transferValue *big.Int, input []byte, msg string) {
+	if logger == nil {
+		logger = log.GetLoggerByIndex(log.TxLogConfig, strconv.Itoa(common.InstanceIndex))
+	}
+	e := &contractExecutor{logger: logger}
+	raw, msg := e.decodeContractData(txData)
+	if raw == nil {
+		return 0, nil, nil, msg
+	}
+	return raw.GasLimit, raw.TransferValue, raw.AbiData, ""
+}
